@@ -92,18 +92,22 @@ class Fixture:
         self.log_pts, self.log_wts = px, wx
         gx, gw = rand_rule(rng, n=rng.randint(1, 3))
         self.gauss_pts, self.gauss_wts = gx, gw
-        SL = SingleLayerOperator.__new__(SingleLayerOperator)
-        SL.pw_exact = pw_exact
-        SL.gauss_scheme = Qd.QuadScheme1D(farr(gx), farr(gw))
-        SL.gauss_2d = Qd.ProductScheme2D(SL.gauss_scheme)
-        SL.log_scheme = Qd.QuadScheme1D(farr(px), farr(wx))
-        SL.log_scheme_m = SL.log_scheme.mirror()
-        SL.log_log = Qd.ProductScheme2D(SL.log_scheme, SL.log_scheme)
-        SL.duff_log_log = Qd.DuffyScheme2D(SL.log_log, symmetric=False)
-        SL.mesh = None
-        SL.gamma_len = Q(self.length)
-        SL.glue_space = closed
-        SL.cache_dir = None
+        # the operator is built by its REAL constructor (so that refactorings of __init__ are followed); only the rule
+        # constructors it calls are replaced by the rational stand-in rules, and the mesh is a stub with the attributes
+        # the constructor reads
+        import types
+        import src.single_layer as SLmod
+        log_rule = Qd.QuadScheme1D(farr(px), farr(wx))
+        gauss_rule = Qd.QuadScheme1D(farr(gx), farr(gw))
+        stub_mesh = types.SimpleNamespace(gamma_space=types.SimpleNamespace(gamma_length=Q(self.length)),
+                                          glue_space=closed, leaf_elements=[])
+        saved = (SLmod.log_quadrature_scheme, SLmod.gauss_quadrature_scheme)
+        SLmod.log_quadrature_scheme = lambda *a, **k: log_rule
+        SLmod.gauss_quadrature_scheme = lambda *a, **k: gauss_rule
+        try:
+            SL = SingleLayerOperator(stub_mesh, pw_exact=pw_exact)
+        finally:
+            SLmod.log_quadrature_scheme, SLmod.gauss_quadrature_scheme = saved
         self.SL = SL
         self.pw_exact = pw_exact
 
